@@ -171,9 +171,23 @@ impl<T: ToCliReport> ToCliReport for &T {
 type AriadneSpan = (FileId, Range<usize>);
 
 /// Translate a SourceSpan into an ariadne span type.
-fn to_span(location: SourceSpan) -> Option<AriadneSpan> {
-    let start = location.offset();
-    let end = location.end_offset();
+///
+/// ariadne slices the source text at these byte offsets, so they are widened to character
+/// boundaries within the text.
+fn to_span(sources: &SourceMap, location: SourceSpan) -> Option<AriadneSpan> {
+    let mut start = location.offset();
+    let mut end = location.end_offset();
+    if let Some(source_file) = sources.get(&location.file_id) {
+        let text = source_file.source_text();
+        start = start.min(text.len());
+        end = end.min(text.len());
+        while !text.is_char_boundary(start) {
+            start -= 1;
+        }
+        while !text.is_char_boundary(end) {
+            end += 1;
+        }
+    }
     Some((location.file_id, start..end))
 }
 
@@ -205,7 +219,7 @@ impl<'s> CliReport<'s> {
         color: Color,
     ) -> Self {
         let span = main_location
-            .and_then(to_span)
+            .and_then(|location| to_span(sources, location))
             .unwrap_or((FileId::NONE, 0..0));
         let report = ariadne::Report::build(ReportKind::Error, span);
         let enable_color = match color {
@@ -242,7 +256,7 @@ impl<'s> CliReport<'s> {
 
     /// Add a label at a given location. If the location is `None`, the message is discarded.
     pub fn with_label_opt(&mut self, location: Option<SourceSpan>, message: impl ToString) {
-        if let Some(span) = location.and_then(to_span) {
+        if let Some(span) = location.and_then(|location| to_span(self.sources, location)) {
             self.report.add_label(
                 ariadne::Label::new(span)
                     .with_message(message)
